@@ -271,6 +271,12 @@ def write_body(case, ctx, tmp):
                 rhs = (np.arange(int(np.prod(shape)), dtype=float).reshape(shape) + base)
                 if form == 'dimarray' and common.is_da(sel):
                     rhs = da.DimArray(rhs, axes=[ax.copy() for ax in sel.axes])
+            if m.values.dtype.kind == 'f' and rng.random() < 0.25:
+                # integers beyond 2**31 assigned to a float variable (exact in float64, not representable in int32)
+                big = 3000000000
+                rhs = (da.DimArray((rhs.values + big).astype(np.int64), axes=[ax.copy() for ax in rhs.axes]) if common.is_da(rhs)
+                       else (np.asarray(rhs) + big).astype(np.int64) if np.ndim(rhs) else int(rhs) + big)
+                ctx.outcomes['ondisk-writes-big-int-into-float'] += 1
             if m.values.dtype.kind == 'i':
                 rhs = (np.asarray(rhs.values if common.is_da(rhs) else rhs).astype(m.values.dtype)) if not common.is_da(rhs) else da.DimArray(rhs.values.astype(m.values.dtype), axes=[ax.copy() for ax in rhs.axes])
                 if np.ndim(rhs) == 0 and not common.is_da(rhs):
